@@ -133,6 +133,51 @@ def _fold_table(m, fold, id_t, fx):
         return None
     key = p[2][0]
     table = None
+    if key[0] == "ifexp":
+        # a helper that maps the callee name to the fold text by an if-chain (returning None for other names)
+        consts = set()
+
+        def cond_val(c, name):
+            if c[0] == "op" and c[1] in ("Compare:Eq", "Compare:NotEq") and len(c[2]) == 2 and id_t in c[2]:
+                other = c[2][1] if c[2][0] == id_t else c[2][0]
+                if other[0] == "const" and isinstance(other[1], str):
+                    consts.add(other[1])
+                    return (name == other[1]) == (c[1] == "Compare:Eq")
+                return None
+            if c[0] == "op" and c[1] == "Compare:In" and len(c[2]) == 2 and c[2][0] == id_t and c[2][1][0] in ("tuple", "list", "set") and all(x[0] == "const" and isinstance(x[1], str) for x in c[2][1][1]):
+                consts.update(x[1] for x in c[2][1][1])
+                return name in {x[1] for x in c[2][1][1]}
+            if c[0] == "op" and c[1] in ("Or", "And"):
+                vals = [cond_val(x, name) for x in c[2]]
+                if any(v is None for v in vals):
+                    return None
+                return any(vals) if c[1] == "Or" else all(vals)
+            if c[0] == "op" and c[1] == "Not" and len(c[2]) == 1:
+                v = cond_val(c[2][0], name)
+                return None if v is None else not v
+            return None
+
+        def ev(t_, name):
+            while t_[0] == "ifexp":
+                v = cond_val(t_[1], name)
+                if v is None:
+                    return ("?",)
+                t_ = t_[2] if v else t_[3]
+            return t_
+
+        ev(key, "\0")  # collects the constants the chain compares with
+        out_ = {}
+        for nm in sorted(consts):
+            r_ = ev(key, nm)
+            if r_ == ("?",):
+                return None
+            if r_[0] == "const" and isinstance(r_[1], str):
+                out_[nm] = r_[1]
+            elif r_ != ("const", None):
+                return None
+        if ev(key, "\0") != ("const", None) or not fx.compare_const(key, [ast.IsNot], None):
+            return None  # other names must map to None, and None must be excluded where the fold is built
+        return out_ or None
     if key[0] == "app" and key[1][0] == "global" and key[1][1].endswith(".get") and key[2] == (id_t,):
         table = key[1][1][: -len(".get")]
         if not fx.compare_const(key, [ast.IsNot], None):
